@@ -40,7 +40,7 @@ Qed.
 Lemma fix_src_in : forall s vid src, fix_src s vid = Some src -> In src (reps_of s vid).
 Proof.
   intros s vid src H. unfold fix_src in H. destruct (reps_of s vid) as [|r0 rs']; [discriminate|].
-  inversion H; subst. destruct (pick_from_in (r0 :: rs') r0) as [Hp|Hp]; [rewrite <- Hp; left; auto|exact Hp].
+  inversion H; subst. destruct (pick_from_in (r0 :: rs') r0) as [Hp|Hp]; [left; exact Hp|exact Hp].
 Qed.
 
 (* ---------- what fix_copy_ok says ---------- *)
@@ -116,9 +116,11 @@ Proof.
       apply mem_N_iff in Hmem. destruct (remove_N_nodup vid pending Hnd) as [Hnd' Hnin].
       destruct (copy_step_safe s planned w vid from to Hwf (Hw vid Hmem) Hok) as [Hc [Hr Hp]].
       cbn [fix_steps flat_map app]. fold (fix_steps evs). rewrite prop_trace_cons.
-      destruct (IH _ (remove_N vid pending) (apply_step s w (Copy vid from to)) Hwf Hnd') as [Hc2 [Hr2 Hp2]]; auto.
+      assert (forall vid', In vid' (remove_N vid pending) ->
+                w_reps (apply_step s w (Copy vid from to)) vid' = reps_of s vid') as Hw'.
       { intros vid' Hv'. assert (vid' <> vid) as Hne by (intro; subst; auto).
         rewrite copy_step_other; auto. apply Hw. eapply remove_N_in; eauto. }
+      destruct (IH _ _ _ Hwf Hnd' Hw' Hrec) as [Hc2 [Hr2 Hp2]].
       unfold v4_and. cbn [ok_coloc ok_repair ok_pres]. rewrite Hc, Hc2, Hr, Hr2, Hp, Hp2. auto.
     + (* FNoPlace *)
       apply andb_true_iff in H. destruct H as [H Hrec]. apply andb_true_iff in H. destruct H as [Hmem _].
@@ -229,15 +231,16 @@ Proof.
       destruct (disk_of t dt) as [d|] eqn:Ed.
       * pose proof (Hcnt t dt d Ht Ed). lia.
       * pose proof (Hp (n_id t) dt). lia.
-    + apply (IH _ (remove_N vid pending) (apply_step s w (Copy vid from to))); auto.
+    + apply (IH (upd2 planned to (v_dt (r_info src)) 1) (remove_N vid pending)
+                (apply_step s w (Copy vid from to))); auto.
       * split.
         -- intros id dt. cbn [apply_step]. rewrite Hat'. cbn [w_occ].
            destruct (N.eq_dec id to) as [E1|E1]; [destruct (N.eq_dec dt (v_dt (r_info src))) as [E2|E2]|].
-           ++ subst. rewrite !upd2_same, Ho. lia.
+           ++ subst id dt. rewrite !upd2_same, Ho. lia.
            ++ rewrite !upd2_other by (right; auto). apply Ho.
            ++ rewrite !upd2_other by (left; auto). apply Ho.
         -- intros id dt. destruct (N.eq_dec id to) as [E1|E1]; [destruct (N.eq_dec dt (v_dt (r_info src))) as [E2|E2]|].
-           ++ subst. rewrite upd2_same. pose proof (Hp to (v_dt (r_info src))). lia.
+           ++ subst id dt. rewrite upd2_same. pose proof (Hp to (v_dt (r_info src))). lia.
            ++ rewrite upd2_other by (right; auto). apply Hp.
            ++ rewrite upd2_other by (left; auto). apply Hp.
       * intros vid' Hv'. assert (vid' <> vid) as Hne by (intro; subst; auto).
